@@ -12,6 +12,7 @@ import (
 	"bytes"
 	"fmt"
 	"os"
+	"runtime"
 	"time"
 
 	"github.com/33cn/chain33/common/difficulty"
@@ -63,10 +64,42 @@ var diffChoices = []uint32{0x1f2fffff, 0x1f27ffff, 0x1f1fffff, 0x1f17ffff}
 
 func quiet() { log.SetLogLevel("crit") }
 
+// The nodes are configured with minerstart=false, so the solo miner never passes its IsMining
+// test (a miner stopped after the start may already be past that test, and then turns the
+// transactions of a block that is disconnected in the next milliseconds into a block of its
+// own).  stopMiner is kept as a second line: it waits for the consensus module's answer (an
+// unacknowledged stop can get lost on a loaded machine).
 func stopMiner(m *testnode.Chain33Mock) {
 	cl := m.GetClient()
-	msg := cl.NewMessage("consensus", types.EventMinerStop, nil)
-	_ = cl.Send(msg, false)
+	for try := 0; try < 5; try++ {
+		msg := cl.NewMessage("consensus", types.EventMinerStop, nil)
+		if err := cl.Send(msg, true); err != nil {
+			time.Sleep(20 * time.Millisecond)
+			continue
+		}
+		_, err := cl.WaitTimeout(msg, 10*time.Second)
+		if err == nil || err == types.ErrMinerNotStared {
+			return
+		}
+	}
+	panic("miner not stopped")
+}
+
+// waitWalletRescan: importing the test keys starts one wallet goroutine per key
+// (rescanReqTxDetailByAddr) that lists the address's transactions and then fetches their
+// details; if a block holding one of them is disconnected in between, the wallet dereferences
+// a nil transaction (wallet_proc.go GetTxDetailByHashs -> ActionName) and the process dies.
+// The run starts when those goroutines are gone.
+func waitWalletRescan() {
+	buf := make([]byte, 8<<20)
+	deadline := time.Now().Add(20 * time.Second)
+	for time.Now().Before(deadline) {
+		n := runtime.Stack(buf, true)
+		if !bytes.Contains(buf[:n], []byte("rescanReqTxDetailByAddr")) {
+			return
+		}
+		time.Sleep(5 * time.Millisecond)
+	}
 }
 
 func newNode(leveldb bool) *testnode.Chain33Mock {
@@ -76,6 +109,7 @@ func newNode(leveldb bool) *testnode.Chain33Mock {
 		cfg.GetModuleConfig().Store.Driver = "memdb"
 		cfg.GetModuleConfig().Wallet.Driver = "memdb"
 	}
+	cfg.GetModuleConfig().Consensus.Minerstart = false // see stopMiner
 	m := testnode.NewWithConfig(cfg, nil)
 	quiet()
 	stopMiner(m)
@@ -86,6 +120,7 @@ func newNode(leveldb bool) *testnode.Chain33Mock {
 		}
 		time.Sleep(2 * time.Millisecond)
 	}
+	waitWalletRescan()
 	return m
 }
 
